@@ -56,6 +56,9 @@ static void buildB_body(flatcc_builder_t *Bd, unsigned v) {
     case 2: EvoB_Root_any_Vec_add(Bd, EvoB_Vec_create(Bd, 3.0f, 4.0f)); break;
     case 3: { EvoB_Extra_start(Bd); int64_t big[2] = {1, -1}; EvoB_Extra_big_create(Bd, big, 2); EvoB_Root_any_Extra_add(Bd, EvoB_Extra_end(Bd)); } break;
     case 4: EvoB_Root_any_Text_add(Bd, flatbuffers_string_create_str(Bd, "text member")); break;
+    /* new struct members smaller than an offset and with alignment 1: they may sit at any address, also as the very last byte(s) of the buffer */
+    case 5: EvoB_Root_any_Tag_add(Bd, EvoB_Tag_create(Bd, 0x5a)); break;
+    case 6: EvoB_Root_any_Tri_add(Bd, EvoB_Tri_create(Bd, 1, 2, 3)); break;
     default: break;
     }
     if (v & 256) {
@@ -64,6 +67,8 @@ static void buildB_body(flatcc_builder_t *Bd, unsigned v) {
         if (v & 512) EvoB_Root_anys_push(Bd, EvoB_Any_as_Text(flatbuffers_string_create_str(Bd, "t")));
         EvoB_Root_anys_push(Bd, EvoB_Any_as_NONE());
         if (v & 1024) { EvoB_Extra_start(Bd); EvoB_Root_anys_push(Bd, EvoB_Any_as_Extra(EvoB_Extra_end(Bd))); }
+        if (v & 2) EvoB_Root_anys_push(Bd, EvoB_Any_as_Tag(EvoB_Tag_create(Bd, 7)));
+        if (v & 1) { EvoB_Root_anys_push(Bd, EvoB_Any_as_Tri(EvoB_Tri_create(Bd, 9, 8, 7))); EvoB_Root_anys_push(Bd, EvoB_Any_as_Tag(EvoB_Tag_create(Bd, 1))); }
         EvoB_Root_anys_push(Bd, EvoB_Any_as_Vec(EvoB_Vec_create(Bd, 9.0f, 8.0f)));
         EvoB_Root_anys_end(Bd);
     }
@@ -115,7 +120,9 @@ int main(int argc, char **argv)
             flatcc_json_printer_init_dynamic_buffer(&pr, 0);
             EvoA_Root_print_json_as_root(&pr, buf, size, 0);
             json = flatcc_json_printer_finalize_dynamic_buffer(&pr, &jlen);
-            printf("B%u printA err=%d len=%d\n", vv, flatcc_json_printer_get_error(&pr), (int)(json ? jlen : 0));
+            printf("B%u printA err=%d len=%d text=", vv, flatcc_json_printer_get_error(&pr), (int)(json ? jlen : 0));
+            { size_t q; for (q = 0; json && q < jlen; ++q) printf("%02x", (unsigned char)json[q]); } printf("\n");
+            free(json);
             flatcc_json_printer_clear(&pr);
         }
         flatcc_builder_aligned_free(buf);
